@@ -33,7 +33,8 @@ extern int g_fail_at;           /* 1-based index of the library allocation to fa
 extern int g_alloc_calls;       /* library allocation requests in this world */
 extern LedgerErr g_lerr;
 
-#define LIB(stmt) do { g_in_lib = 1; stmt; g_in_lib = 0; } while (0)
+void verif_paint_stack(void);
+#define LIB(stmt) do { verif_paint_stack(); g_in_lib = 1; stmt; g_in_lib = 0; } while (0)
 
 void arena_reset(void);                 /* fresh world */
 void arena_snapshot(void);              /* byte snapshot of ledger + every slot */
